@@ -27,6 +27,7 @@ import Hdl21Model.Props.C03
 import Hdl21Model.Lemmas.PortRefs
 import Hdl21Model.Lemmas.ConnTypes
 import Hdl21Model.Lemmas.Orphanage
+import Hdl21Model.Lemmas.ModulePipe
 namespace Hdl21.Props.C02
 open Hdl21 Hdl21.Runner
 
@@ -179,5 +180,86 @@ example :
     Orphanage.passes 7 ⟨[⟨"s", "t", some 7⟩], []⟩ = false := by decide
 
 end Ownership
+
+
+/-! ## the passes composed: what gets through the default pass list and the exporter (fragment F1, ModulePipe.lean) -/
+section Pipeline
+open Hdl21.Pkg Hdl21.RoundTrip Hdl21.ExportWF Hdl21.ModulePipe
+
+/-- a well-formed instance, declaratively: of something defined, every port of it connected to something of the port's width,
+    nothing else connected, every connection over signals the module declares (with the widths it declares) -/
+def InstWF (ctx : PRef → Option (List (String × Nat))) (ws : List (String × Nat)) (i : HInst) : Prop :=
+  ∃ ports, ctx i.ref = some ports ∧ (∀ pw ∈ ports, ∃ c, (pw.1, c) ∈ i.conns ∧ c.width = .ok pw.2) ∧
+    (∀ kc ∈ i.conns, kc.1 ∈ ports.map (·.1)) ∧ (∀ kc ∈ i.conns, sigsOK ws kc.2 = true)
+
+/-- **Only well-formed modules get through**: if the composed default pass list and the exporter return a module, every
+    instance the designer wrote is well-formed — whatever the nesting of slices and concatenations, the widths, the number of
+    instances; no reference to an intermediate state. -/
+theorem module_accepts_only_wellformed (fuel : Nat) (ctx : PRef → Option (List (String × Nat))) (h : HModule) (p : PModule)
+    (hm : ModOK ctx h) (hp : pipeline fuel ctx h = .ok p) :
+    ∀ i ∈ h.instances, InstWF ctx (sigList h) i := by
+  obtain ⟨_, _, _, _, hcn, hctx⟩ := hm
+  unfold pipeline at hp
+  cases he : elabModule fuel ctx h with
+  | error x => simp [he] at hp
+  | ok e =>
+    obtain ⟨ho, hc, _, _, _⟩ := elabModule_inv he
+    intro i hi
+    obtain ⟨ports, hcr, hpass⟩ := connTypes_inst hc i hi
+    obtain ⟨h1, h2⟩ := (ConnTypes.passes_iff ports i.conns (hctx _ _ hcr) (hcn i hi)).mp hpass
+    exact ⟨ports, hcr, h1, h2, orphanage_inst ho i hi⟩
+
+/-- **Each fault class of the fragment, planted anywhere, makes the pipeline refuse**: an instance of something undefined; a
+    port left unconnected; a connection to a port the target does not have; a connection whose width is not the port's — or
+    which has no width at all (an index out of range, an empty or zero-step slice, at any depth of the expression); a
+    connection naming a signal the module does not declare (or declares with another width: a stale object). -/
+theorem module_faults_rejected (fuel : Nat) (ctx : PRef → Option (List (String × Nat))) (h : HModule)
+    (hm : ModOK ctx h) (i : HInst) (hi : i ∈ h.instances) :
+    (ctx i.ref = none → ∃ e, pipeline fuel ctx h = .error e) ∧
+    (∀ ports pw, ctx i.ref = some ports → pw ∈ ports → pw.1 ∉ i.conns.map (·.1) → ∃ e, pipeline fuel ctx h = .error e) ∧
+    (∀ ports kc, ctx i.ref = some ports → kc ∈ i.conns → kc.1 ∉ ports.map (·.1) → ∃ e, pipeline fuel ctx h = .error e) ∧
+    (∀ ports pw c, ctx i.ref = some ports → pw ∈ ports → (pw.1, c) ∈ i.conns → c.width ≠ .ok pw.2 →
+      ∃ e, pipeline fuel ctx h = .error e) ∧
+    (∀ kc ∈ i.conns, sigsOK (sigList h) kc.2 = false → ∃ e, pipeline fuel ctx h = .error e) := by
+  have key : ∀ (Q : Prop), (InstWF ctx (sigList h) i → Q → False) → Q → ∃ e, pipeline fuel ctx h = .error e := by
+    intro Q hq q
+    cases hp : pipeline fuel ctx h with
+    | error e => exact ⟨e, rfl⟩
+    | ok p => exact absurd q (fun q => hq (module_accepts_only_wellformed fuel ctx h p hm hp i hi) q)
+  have hcn := hm.2.2.2.2.1 i hi
+  refine ⟨?_, ?_, ?_, ?_, ?_⟩
+  · exact key _ (fun ⟨ports, hc, _⟩ hn => by rw [hn] at hc; cases hc)
+  · intro ports pw hc hpw hmiss
+    refine key _ (fun ⟨ports', hc', h1, _⟩ _ => ?_) trivial
+    rw [hc] at hc'; injection hc' with hc'; subst hc'
+    obtain ⟨c, hcm, _⟩ := h1 pw hpw
+    exact hmiss (List.mem_map.mpr ⟨(pw.1, c), hcm, rfl⟩)
+  · intro ports kc hc hkc hextra
+    refine key _ (fun ⟨ports', hc', _, h2, _⟩ _ => ?_) trivial
+    rw [hc] at hc'; injection hc' with hc'; subst hc'
+    exact hextra (h2 kc hkc)
+  · intro ports pw c hc hpw hcm hw
+    refine key _ (fun ⟨ports', hc', h1, _⟩ _ => ?_) trivial
+    rw [hc] at hc'; injection hc' with hc'; subst hc'
+    obtain ⟨c', hcm', hw'⟩ := h1 pw hpw
+    have : c' = c := ConnTypes.unique_conn i.conns pw.1 c c' hcn hcm hcm'
+    exact hw (this ▸ hw')
+  · intro kc hkc hs
+    refine key _ (fun ⟨_, _, _, _, h3⟩ _ => ?_) trivial
+    have := h3 kc hkc
+    rw [hs] at this; cases this
+
+/-- non-vacuity: a well-formed module gets through; the same module with bit 2 of a two-bit bus, with a port left open, with a
+    three-bit connection on a two-bit port, with a signal of another module, is refused -/
+example :
+    let ctx : PRef → Option (List (String × Nat)) := fun _ => some [("p", 2), ("n", 1)]
+    let mk (cs : List (String × SConn)) : HModule := ⟨"T", [⟨"s", 2, none⟩, ⟨"t", 3, none⟩], [], [⟨"x", .ext "d" "n", [], cs⟩]⟩
+    (pipeline 40 ctx (mk [("p", .sig "s" 2), ("n", .slice (.sig "t" 3) (.int 2))])).toOption.isSome = true ∧
+    (pipeline 40 ctx (mk [("p", .sig "s" 2), ("n", .slice (.sig "s" 2) (.int 2))])).toOption.isSome = false ∧
+    (pipeline 40 ctx (mk [("p", .sig "s" 2)])).toOption.isSome = false ∧
+    (pipeline 40 ctx (mk [("p", .sig "t" 3), ("n", .slice (.sig "t" 3) (.int 2))])).toOption.isSome = false ∧
+    (pipeline 40 ctx (mk [("p", .sig "u" 2), ("n", .slice (.sig "t" 3) (.int 2))])).toOption.isSome = false := by
+  decide +kernel
+end Pipeline
 
 end Hdl21.Props.C02
